@@ -31,7 +31,7 @@ from dashlive.server.manifests import DashManifest
 from dashlive.server.options.container import OptionsContainer
 from dashlive.server.options.types import OptionUsage
 from dashlive.utils import objects
-from dashlive.utils.date_time import scale_timedelta
+from dashlive.utils.date_time import from_isodatetime, scale_timedelta
 from dashlive.utils.json_object import JsonObject
 from dashlive.utils.lang import lang_is_equal
 from dashlive.utils.timezone import UTC
@@ -526,7 +526,9 @@ class ManifestContext:
                 aud_cgi_params['aerr'] = times
 
         if options.videoCorruption:
-            errs = [(None, tc) for tc in options.videoCorruption]
+            errs = [
+                (None, int(tc, 10) if tc.isdigit() else from_isodatetime(tc))
+                for tc in options.videoCorruption]
             segs = self.calculate_injected_error_segments(
                 errs,
                 self.now,
